@@ -23,8 +23,11 @@ def random_cell(rng, kind, scale=12.0):
     a, b, c = rng.uniform(0.8 * scale, 1.3 * scale, 3)
     if kind == "ortho":
         return np.diag([a, b, c])
-    if kind == "tri":   # LAMMPS orientation, any tilt signs
+    if kind == "tri":   # LAMMPS orientation, any tilt signs; one cell in three monoclinic / hexagonal-like: one or two tilt factors exactly zero
         xy, xz, yz = rng.uniform(-0.45, 0.45, 3) * np.array([a, a, b])
+        if rng.integers(3) == 0:
+            keep = [(1, 0, 0), (0, 1, 0), (0, 0, 1), (1, 1, 0), (1, 0, 1), (0, 1, 1)][int(rng.integers(6))]
+            xy, xz, yz = xy * keep[0], xz * keep[1], yz * keep[2]
         return np.array([[a, 0, 0], [xy, b, 0], [xz, yz, c]])
     if kind == "tiny_tilt":    # almost orthorhombic, LAMMPS orientation: tilt factors between the printed precision (1e-6) and 1e-3
         cell = np.diag([a, b, c])
